@@ -1,6 +1,7 @@
 """Helpers shared by the property monitors."""
 import random
 import re
+import signal
 import time
 
 from .. import obs as O
@@ -105,6 +106,20 @@ def transitions(sty):
     return out
 
 
+CASE_ALARM_S = 90
+
+
+class CaseTimeout(BaseException):
+    """raised by the SIGALRM handler when no outermost call has returned for CASE_ALARM_S seconds of wall clock"""
+
+
+def _on_alarm(signum, frame):
+    raise CaseTimeout()
+
+
+signal.signal(signal.SIGALRM, _on_alarm)
+
+
 class Budget:
     """wall-clock cap for a shard's workload: only bounds cost; hitting it is
     reported in evidence (time_capped) and never decides a verdict."""
@@ -133,6 +148,8 @@ def run_cases(ctx, mon, ncases, body, wall=None, only_case=None):
         wall = 360 if ctx.tier == 'quick' else 3600
     bud = Budget(wall) if wall else None
     cases = range(ncases) if only_case is None else [only_case]
+    # the alarm is a *no progress* watchdog: every returning outermost call and every oracle section re-arms it
+    mon.heartbeat = lambda: signal.alarm(CASE_ALARM_S)
     for case in cases:
         if bud is not None and bud.over():
             ctx.extra['time_capped_at_case'] = case
@@ -145,13 +162,30 @@ def run_cases(ctx, mon, ncases, body, wall=None, only_case=None):
         ctx.history = []
         ex = Exec(L, ctx, mon)
         ctx.cases += 1
+        if getattr(mon, 'budget', None) is not None:
+            mon.budget.start()
         try:
-            body(rng, ex, case)
+            signal.alarm(CASE_ALARM_S)
+            try:
+                body(rng, ex, case)
+            finally:
+                signal.alarm(0)
+        except CaseTimeout:
+            # wall clock: inconclusive for this case, never a verdict; a few of them end the shard's workload
+            ctx.aborted['case-wall-clock-alarm'] += 1
+            ctx.extra['n_case_alarms'] = ctx.extra.get('n_case_alarms', 0) + 1
+            mon.depth = 0
+            if ctx.extra['n_case_alarms'] >= 3:
+                ctx.extra['stopped_after_case_alarms'] = True
+                break
         except StepBudgetExceeded:
             # the contract has already judged the call; the rest of this case is abandoned
             ctx.aborted['step-budget-exceeded'] += 1
+            mon.depth = 0
         except Exception:
             ctx.oracle_error('driver case %s' % case)
+    mon.heartbeat = None
+    signal.alarm(0)
     ctx.history = None
     ctx.case = None
 
